@@ -614,10 +614,11 @@ impl Formatter<'_> {
                     // line.push_str(&" ".repeat(spaces));
                     line.extend(repeat_n(' ', spaces));
                     line.extend(repeat_n('#', octos));
-                    if self.config.comment_space_after_hash
-                        && !comment.is_empty()
-                        // Shebang
-                        && !comment.starts_with('!')
+                    if !comment.is_empty()
+                        && (self.config.comment_space_after_hash
+                            // Shebang
+                            && !comment.starts_with('!')
+                            || comment_needs_space(&comment))
                     {
                         line.push(' ');
                     }
@@ -1480,7 +1481,9 @@ impl Formatter<'_> {
     fn format_comment(&mut self, comment: &Sp<EcoString>) {
         self.push(
             &comment.span,
-            &if self.config.comment_space_after_hash && !comment.value.starts_with('!') {
+            &if self.config.comment_space_after_hash && !comment.value.starts_with('!')
+                || comment_needs_space(&comment.value)
+            {
                 format!("# {}", comment.value)
             } else {
                 format!("#{}", comment.value)
@@ -1759,6 +1762,12 @@ pub(crate) fn word_is_multiline(word: &Word) -> bool {
         Word::TypeSigComment { .. } => true,
         Word::OutputComment { .. } => true,
     }
+}
+
+/// Whether a comment's text glued to its `#` would read as another kind of comment,
+/// or would lose a leading space
+fn comment_needs_space(text: &str) -> bool {
+    text.starts_with(['#', '?', ' ']) || text == "exp"
 }
 
 fn end_loc(s: &str) -> Loc {
